@@ -39,7 +39,7 @@ ReqOf(c) ==
    data |-> IF c.mdOnly THEN <<>> ELSE c.file,
    srcName |-> IF c.mdOnly THEN "none" ELSE "s/" \o c.srcName, srcBase |-> IF c.mdOnly THEN "none" ELSE c.srcName,
    dstName |-> IF c.mdOnly THEN "none" ELSE "d/" \o c.dstName, dIdW |-> c.dIdW, dId |-> c.dId, known |-> TRUE,
-   msgs |-> c.msgs]
+   msgs |-> c.msgs, xopts |-> c.xopts]
 DstPath(c) == IF c.dstShape \in {"dir", "direxisting"} THEN "d/" \o c.dstName \o "/" \o c.srcName ELSE "d/" \o c.dstName
 Fs0(c) ==
   CASE c.dstShape = "existing"    -> { [p |-> "d/" \o c.dstName, dir |-> FALSE, d |-> c.dstOld] }
